@@ -95,6 +95,20 @@ Frozen(st0, st1) ==
         x.dropped =>
           \A i2 \in 1..Len(st1.pos) : (st1.pos[i2].task = r.task /\ st1.pos[i2].coll = r.coll) =>
               \E j2 \in 1..Len(st1.pos[i2].pos) : st1.pos[i2].pos[j2] = x
+\* ... also inside a step: every effective checkpoint write of a (task, collection) keeps the entries that were frozen before it
+\* (in the previous dump or by an earlier write of the same step), whatever the store looks like when the step has settled
+FrozenOf(st) == UNION {{<<st.pos[i].task, st.pos[i].coll, st.pos[i].pos[j].ch, st.pos[i].pos[j].id>> :
+                           j \in {k \in 1..Len(st.pos[i].pos) : st.pos[i].pos[k].dropped}} : i \in 1..Len(st.pos)}
+RECURSIVE FrozenLog(_, _, _)
+FrozenLog(lg, i, fz) ==
+    IF i > Len(lg) THEN TRUE
+    ELSE LET x == lg[i] IN
+         IF x.ev = "putpos" /\ x.ok
+           THEN /\ \A f \in fz : (f[1] = x.task /\ f[2] = x.coll) =>
+                       \E j \in 1..Len(x.pos) : x.pos[j].ch = f[3] /\ x.pos[j].id = f[4] /\ x.pos[j].dropped
+                /\ FrozenLog(lg, i + 1, fz \cup {<<x.task, x.coll, x.pos[j].ch, x.pos[j].id>> : j \in {k \in 1..Len(x.pos) : x.pos[k].dropped}})
+           ELSE IF x.ev \in {"delpos", "commit"} THEN TRUE      \* a delete of the task / collection record ends the obligation
+           ELSE FrozenLog(lg, i + 1, fz)
 \* a reader (re)starts exactly at the persisted checkpoint of its stream
 ResumeOK(regs, st) ==
     \A i \in 1..Len(regs) : (regs[i].op = "register" /\ regs[i].v \in DOMAIN Scripts) =>
@@ -196,7 +210,8 @@ TStep ==
        /\ e.op # "machinery"
        /\ LET f == FoldLog(e.log, 1, acked, TRUE) IN
           /\ acked' = f.a
-          /\ okc05' = (okc05 /\ f.ok /\ ResumeOK(e.regs, prevStore) /\ Frozen(prevStore, e.store))
+          /\ okc05' = (okc05 /\ f.ok /\ ResumeOK(e.regs, prevStore) /\ Frozen(prevStore, e.store)
+                      /\ FrozenLog(e.log, 1, FrozenOf(prevStore)))
        /\ delivered' = IF e.op = "deliver" /\ e.res = "ok" THEN Append(delivered, [s |-> e.s, id |-> e.id, idx |-> e.idx, data |-> e.data]) ELSE delivered
        /\ eof' = IF e.op = "deliver" /\ e.res = "eof" THEN eof \cup {e.s}
                  ELSE IF e.op \in {"boot", "restart", "resume", "kill", "pause"} \/ Crashed(e.log) THEN {}
